@@ -30,6 +30,7 @@ ScalarSpan(it, i, v) ==
       [] v.k = "neg" -> IF IsTok(it, i, "punct", "-") /\ IsTok(it, i + 1, "num", v.v) THEN 2 ELSE 0
       [] v.k = "bool" -> IF (v.v /\ (IsTok(it, i, "word", "TRUE") \/ IsTok(it, i, "num", "1")))
                             \/ (~v.v /\ (IsTok(it, i, "word", "FALSE") \/ IsTok(it, i, "num", "0"))) THEN 1 ELSE 0
+      [] v.k = "null" -> IF IsTok(it, i, "word", "NULL") THEN 1 ELSE 0
       [] OTHER -> 0
 
 RECURSIVE ListSpan(_, _, _, _)
@@ -50,7 +51,8 @@ LitSpan(it, i, v) ==
              IF e # 0 /\ IsTok(it, e, "punct", "]") THEN e + 1 - i ELSE 0
     ELSE ScalarSpan(it, i, v)
 
-Plain(v) == v.k \in {"str", "int", "neg", "float", "bool"} \/ (v.k = "list" /\ \A x \in DOMAIN v.items : v.items[x].k \in {"str", "int", "neg", "float", "bool"})
+Plain(v) == v.k \in {"str", "int", "neg", "float", "bool", "null"}
+            \/ (v.k = "list" /\ \A x \in DOMAIN v.items : v.items[x].k \in {"str", "int", "neg", "float", "bool", "null"})
 
 RECURSIVE Walk(_, _, _, _, _, _, _)
 \* returns "" when equivalent, else the fault: style | count | order | residue | differs | not-plain-data
